@@ -21,7 +21,7 @@ ASSUMPTIONS = ['TCP framing: u16 little-endian length of the CPX wire data, then
                'UART framing: 0xFF, length, wire data, XOR checksum; 0xFF 0x00 is the clear-to-send acknowledgement',
                'receiver queues exist before packets arrive (the router drops packets for functions nobody asked for yet)']
 REQUIRED = ['mon.codec', 'mon.bad_version', 'mon.short_streams_all_cuts', 'mon.long_streams', 'mon.router_packets',
-            'mon.tcp_crtp_up', 'mon.tcp_crtp_down', 'mon.serial_crtp_up', 'mon.serial_crtp_down', 'mon.crtp_packet_objects_sent_again',
+            'mon.tcp_crtp_up', 'mon.tcp_crtp_down', 'mon.serial_crtp_up', 'mon.serial_crtp_down', 'mon.crtp_packet_objects_sent_again', 'mon.uart_cpx_packets_of_every_length',
             'mon.router_streams_with_rejected_frames']
 EXHAUSTIVE = {'quick': False, 'thorough': False}
 EXHAUSTIVE_NOTE = 'cut patterns of short streams (<= 14 bytes) are enumerated completely'
@@ -537,6 +537,27 @@ def run_serial(desc, ctx):
                     if p is None:
                         break
                     ob['rx'].append((p.header, bytes(p.data)))
+                # plain CPX packets over the same UART transport: every payload length up to the largest that fits a frame
+                from cflib.cpx import CPXFunction, CPXPacket, CPXTarget
+                import queue as _q
+                lens = sorted(set([0, 1, 2, 31, 32, 96, 97, 98] + [rnd.randint(0, 98) for _ in range(6)]))
+                ob['cpx_up'] = [rnd.randbytes(n) for n in lens]
+                for pl in ob['cpx_up']:
+                    d.cpx.sendPacket(CPXPacket(function=CPXFunction.APP, destination=CPXTarget.GAP8, data=bytearray(pl)))
+                try:
+                    d.cpx.receivePacket(CPXFunction.APP, timeout=0.01)      # (creates the queue of that function)
+                except _q.Empty:
+                    pass
+                ob['cpx_down'] = [rnd.randbytes(n) for n in lens]
+                for pl in ob['cpx_down']:
+                    ser.send_frame(wire(4, 3, 5, True, pl))
+                ob['cpx_rx'] = []
+                for _ in ob['cpx_down']:
+                    try:
+                        p = d.cpx.receivePacket(CPXFunction.APP, timeout=5.0)
+                    except _q.Empty:
+                        break
+                    ob['cpx_rx'].append((p.source.value, p.destination.value, p.function.value, bool(p.lastPacket), bytes(p.data)))
                 ob['frames'] = list(ser.frames)
                 ob['acks'] = ser.acks
                 d.close()
@@ -564,6 +585,14 @@ def run_serial(desc, ctx):
         ctx.violate('serial:frame-with-wrong-checksum', {})
     crtp = [f for f, ok in frames if len(f) >= 2 and f[1] & 0x3F == 3]
     ctx.count('mon.serial_crtp_up', len(crtp))
+    app = [f for f, ok in frames if len(f) >= 2 and f[1] & 0x3F == 5]
+    ctx.count('mon.uart_cpx_packets_of_every_length', len(app) + len(ob.get('cpx_rx', [])))
+    if app != [wire(3, 4, 5, False, pl) for pl in ob.get('cpx_up', [])]:
+        ctx.violate('uart:cpx-packets-written-differ-from-those-sent', {'sent_lengths': [len(x) for x in ob.get('cpx_up', [])],
+                                                                       'frame_payload_lengths': [len(f) - 2 for f in app]})
+    if ob.get('cpx_rx') != [(4, 3, 5, True, pl) for pl in ob.get('cpx_down', [])]:
+        ctx.violate('uart:cpx-packets-read-differ-from-those-on-the-wire', {'wire_lengths': [len(x) for x in ob.get('cpx_down', [])],
+                                                                           'read': [(r[0], r[1], r[2], r[3], len(r[4])) for r in ob.get('cpx_rx', [])][:12]})
     ctx.count('mon.crtp_packet_objects_sent_again', ob.get('resent', 0))
     if ob.get('mutated'):
         ctx.violate('serial:send_packet-changed-the-callers-packet', {'header_data_before_after': ob['mutated']})
